@@ -1,4 +1,5 @@
 import Dnp3.Model.OutstationTrace
+import Dnp3.Proofs.FreezeAtTime
 /-!
 # C04 — OPERATE actuates only after its own matching, fresh, directly preceding SELECT
 
@@ -7,6 +8,7 @@ Every `Db.*` function is treated as opaque: nothing here unfolds them.
 -/
 namespace Dnp3.Proofs.C04
 open Dnp3
+open Dnp3.Proofs.FreezeAtTime
 
 /-! ## 1. `matchOperate` -/
 
@@ -601,6 +603,11 @@ theorem handleFreeze_hframe (a : Acc) (seq : Nat) (k : FreezeKind) (hs : List Ob
   refine foldl_hframe _ (fun p x => ?_) hs (a, 0)
   exact handleFreezeHeader_hframe p.1 k x
 
+theorem handleFreezeAtTime_hframe (a : Acc) (seq : Nat) (hs : List ObjHdr) :
+    HFrame a (handleFreezeAtTime a seq hs).1 :=
+  handleFreezeAtTime_inv (fun b => HFrame a b)
+    (fun b h hb => HFrame.trans hb (handleFreezeHeader_hframe b .atTime h)) a seq hs (HFrame.refl _)
+
 theorem handleEnableDisable_hframe (a : Acc) (en : Bool) (seq : Nat) (hs : List ObjHdr) :
     HFrame a (handleEnableDisable a en seq hs).1 := by
   unfold handleEnableDisable
@@ -864,6 +871,7 @@ local macro "nr_leaf" hres:ident : tactic => `(tactic| (
       | exact countOfOne_hframe ..
       | exact handleRestart_hframe _ _ _ rfl
       | exact handleFreeze_hframe ..
+      | exact handleFreezeAtTime_hframe ..
       | exact handleEnableDisable_hframe ..
       | exact HFrame.refl _
       | hframe_simp))
@@ -880,8 +888,8 @@ def nrRes (a : Acc) (func seq frameId : Nat) (hs : List ObjHdr) (raw : List Nat)
     else if func = 8 then let (a, _) := handleFreeze a seq .immediate hs; some (a, none)
     else if func = 9 then let (a, r) := handleFreeze a seq .clear hs; some (a, some r)
     else if func = 10 then let (a, _) := handleFreeze a seq .clear hs; some (a, none)
-    else if func = 11 then some (a, some (emptySolicited seq (if hs.isEmpty then 0 else iin2ParamError)))
-    else if func = 12 then some (a, none)
+    else if func = 11 then let (a, r) := handleFreezeAtTime a seq hs; some (a, some r)
+    else if func = 12 then let (a, _) := handleFreezeAtTime a seq hs; some (a, none)
     else if func = 20 then let (a, r) := handleEnableDisable a true seq hs; some (a, some r)
     else if func = 21 then let (a, r) := handleEnableDisable a false seq hs; some (a, some r)
     else some (a, some (emptySolicited seq iin2NoFunc))
@@ -1044,6 +1052,7 @@ theorem processBroadcast_optp (a : Acc) (f : Frag) (mode : Nat) (ctrl : AppCtrl)
          | exact HFrame.emitCb _ _ rfl
          | exact HFrame.trans (handleWrite_hframe ..) (HFrame.emitCb _ _ rfl)
          | exact HFrame.trans (handleFreeze_hframe ..) (HFrame.emitCb _ _ rfl)
+         | exact HFrame.trans (handleFreezeAtTime_hframe ..) (HFrame.emitCb _ _ rfl)
          | exact HFrame.trans (handleEnableDisable_hframe ..) (HFrame.emitCb _ _ rfl)
          | (refine HFrame.trans ?_ (HFrame.emitCb _ _ rfl); hframe_simp; done))
 
